@@ -225,6 +225,9 @@ def observe(seed, tier):
         for run, pred in zip(runs, preds):
             p = byname[run["flow"]]
             S["executions"] += 1
+            if len(p.units()) >= 2 or run["scenario"] or run.get("precancel"):
+                S.setdefault("distinct_keys", []).append(hashlib.sha1(json.dumps(
+                    [p.abstract_line(), p.coe, run["scenario"], run["conc"], bool(run.get("precancel"))], sort_keys=True).encode()).hexdigest()[:12])
             S["dist"]["scenario"][run["label"]] = S["dist"]["scenario"].get(run["label"], 0) + 1
             for prop, msgs in compare(p, run, pred).items():
                 hit(prop, msgs[0], {"program": [dict(i) for i in p.items], "continue_on_error": p.coe, "go_function": p.name(), "scenario": run["scenario"], "conc": run["conc"],
@@ -265,8 +268,13 @@ def apply(chk, pid):
         "programs": s["programs"], "executions": s["executions"], "input_distribution": s["dist"]}
     for smp in s["samples"][:1]:
         chk.sample(smp)
-    for i in range(s["executions"]):
-        chk.distinct.add(("parexec", i))
+    for k in s.get("distinct_keys", []):
+        chk.distinct.add(("par", k))
+    rule = ("generated Parallel programs: seeded mixes of Task/Tasks/Slice/Map (index/no-index, ctx/no-ctx, error/no-error, sizes 0-8, nil collections, named slice types, End hooks, "
+            "ContinueOnError, instrumentation, generic enclosing functions), each under the all-ok scenario at three concurrency levels, single failures, small multi-failure sets and a "
+            "pre-cancelled context; distinct = different (program, mode, scenario, concurrency); non-trivial = at least two functions/elements or a non-empty scenario")
+    if rule not in chk.cov["rule"]:
+        chk.cov["rule"] = (chk.cov["rule"] + " | " if chk.cov["rule"] else "") + rule
     for h in s["hits"].get(pid, [])[:1]:
         chk.violate(h["what"], h["payload"])
     for h in s["hits"].get("MODEL", [])[:1]:
